@@ -59,8 +59,12 @@ METRICS = {"manhattan": "Manhattan", "euclidean": "Euclidean",
            "supremum": "Supremum"}
 
 
+TRANSLATORS = [('pyx_recurrence', 'RecurrenceK')]
+
+
 def theorems(ctx):
     ctx.modelled += MODELLED
+    ctx.generate(TRANSLATORS)
     ctx.theorems()
     if ctx.tier == "thorough":
         ctx.coqchk()
